@@ -187,14 +187,18 @@ Accumulate(g, a, line) ==
   /\ LET G == graphs[g]
          x == CtxOf(G, a.snap)
          r == StateOf(G, a.snap)
-         key == [k |-> "acc", g |-> ResultKeyGraph(G, a.snap), src |-> a.src]
+         key == [k |-> "acc", g |-> ResultKeyGraph(G, a.snap), src |-> <<a.src, IF "E" \in DOMAIN a THEN a.E ELSE 0>>]
      IN /\ Has("C03") => /\ Chk("C03.OverloadsAgree", line, AccOverloadsAgree(a))
                          /\ AccExactDomain(x, r, a) =>
                                /\ Chk("C03.Balance", line, AccBalance(x, r, a))
                                /\ Chk("C03.Conserves", line, AccConserves(x, r, a))
                                /\ Chk("C03.LocalBound", line, AccLocalBound(x, a))
                          /\ AccApproxDomain(x, r, a) => Chk("C03.ApproxBalance", line, AccApproxBalance(x, r, a))
-                         /\ Chk("C03.Indicator", line, AccIndicator(x, r, a))
+                         /\ ("E" \notin DOMAIN a) => Chk("C03.Indicator", line, AccIndicator(x, r, a))
+                         \* single direction, integer data in other units (power-of-two factors): the sweep is exact
+                         /\ ("E" \in DOMAIN a /\ r.width = 1) => Chk("C03.ExactInOtherUnits", line, AccExactDomain(x, r, a))
+                         \* a finite source in other units: the values are finite (class 0 at every node)
+                         /\ ("fin" \in DOMAIN a) => Chk("C03.Finite", line, \A q \in DOMAIN a.fin : a.fin[q] = 1)
         /\ MemoOn(a.snap) =>
               (key \in DOMAIN memo => Chk("C09.SameAccumulation", line, memo[key] = a.racc[1]))
         /\ memo' = IF key \in DOMAIN memo THEN memo ELSE (key :> a.racc[1]) @@ memo
